@@ -96,13 +96,19 @@ def gen_dir(rng):
 
 
 def gen_eps(rng):
+    # (a very small obliquity too: the rotation is still a rotation by that
+    # angle, not the identity)
     return rng.choice((0.0, 30.0, 23.4392911, 23.44, rng.uniform(0, 30),
-                       rng.uniform(22, 24.5)))
+                       rng.uniform(22, 24.5), rng.uniform(0, 30),
+                       10.0 ** rng.uniform(-10, -3)))
 
 
 def gen_phi(rng):
     return rng.choice((0.0, 90.0, -90.0, 38.921389, rng.uniform(-90, 90),
-                       rng.uniform(-90, 90), 89.999999, -89.9999))
+                       rng.uniform(-90, 90), 89.999999, -89.9999,
+                       rng.choice((-1, 1)) * 10.0 ** rng.uniform(-10, -3),
+                       rng.choice((-1, 1))
+                       * (90.0 - 10.0 ** rng.uniform(-10, -3))))
 
 
 def polar_class(mon, lat, ident):
